@@ -648,14 +648,20 @@ impl expr::Expr
 						let right = propagate!(
 							right_expr.eval_with_ctx(report, ctx, provider)?);
 
-						let left_usize = left.expect_usize(report, span)? + 1;
+						let left_usize = left.expect_usize(report, span)?;
 						let right_usize = right.expect_usize(report, span)?;
+
+						// `x[hi:lo]` names the bits hi down to lo
+						if left_usize < right_usize
+						{
+							return Err(report.error_span("invalid slice range", span));
+						}
 
 						Ok(expr::Value::make_integer(
 							x.checked_slice(
 								report,
 								span,
-								left_usize,
+								left_usize + 1,
 								right_usize)?))
 					}
 					None => Err(report.error_span("invalid argument type to slice", span))
